@@ -222,7 +222,7 @@ def gen_std(rnd):
         N = rnd.choice([2, 3, 5, 20, 60]); return dict(runner='std', kind='ba', N=N, M=rnd.randint(1, N - 1), seed=rnd.randrange(1 << 30))
     if kind == 'fixed':
         return dict(runner='std', kind='fixed', n=rnd.randint(0, 6), seed=rnd.randrange(1 << 30), limit=rnd.choice([None, 0, 1, 3]), asks=rnd.randint(0, 5))
-    return dict(runner='std', kind='api', limit=rnd.choice([None, 0, 1, 2, 4]), asks=rnd.randint(0, 6), how=[rnd.choice(['generate', 'next', 'iter']) for _ in range(6)],
+    return dict(runner='std', kind='api', ctor=rnd.choice([None, None, 'same', 'equal']), limit=rnd.choice([None, 0, 1, 2, 4]), asks=rnd.randint(0, 6), how=[rnd.choice(['generate', 'next', 'iter']) for _ in range(6)],
                 seed=rnd.randrange(1 << 30))
 
 
@@ -278,7 +278,13 @@ def run_std(spec):
             def _generate(self, params):
                 g = nx.empty_graph(int(params.get('n', 0))); g.graph['params'] = dict(params); return g
         ps = {'n': 3, 'stale': 1}
-        gen = G(limit=spec['limit']).set(ps)
+        ctor = spec.get('ctor')
+        if ctor:      # the generator was also constructed with parameters: the same dict object, or an equal one
+            ps0 = ps if ctor == 'same' else dict(ps)
+            gen = G(ps0, limit=spec['limit']).set(ps)
+            ps0['n'] = 7
+        else:
+            gen = G(limit=spec['limit']).set(ps)
         ps['n'] = 7                                                   # the caller's dict changes after set(): the generator must not see it
         made = []
         it = iter(gen)
